@@ -52,6 +52,7 @@ class KernSpineImporter(SpineImporter):
 
     def import_token(self, encoding: str):
         self._raise_error_if_wrong_input(encoding)
+        self.error_listener.errors = []  # errors of previous tokens must not leak into this one
 
         # self.listenerImporter = KernListenerImporter(token) # TODO ¿Por qué no va esto?
         # self.listenerImporter.start()
